@@ -285,8 +285,20 @@ structure PRReader where
 /-- re-scoping of the selected bin-bound keys (fix d4ceaa2) -/
 def rescope (k : Str) : Str := if k = sBinsLB then k else scopeKey sBinsLB k
 
-/-- `packing_result.CsvReader.__init__(columns)`; `keys` = the titles the embedded reader removes -/
-def prSetup (keys : List Str) (cols : Cols) : Option PRReader :=
+/-- the first half of both `CsvReader.__init__` (the same statements in `packing_result.py` and
+`packing_statistics.py`): the embedded reader takes its columns, then the four instance columns, then the
+bin-bound columns (re-scoped, sorted) are taken out of the dictionary -/
+structure CommonReader where
+  erCols : Cols
+  iN : Nat
+  iD : Nat
+  iW : Nat
+  iH : Nat
+  bb : List (Str × Nat)
+  rest : Cols
+  deriving Repr
+
+def setupCommon (keys : List Str) (cols : Cols) : Option CommonReader :=
   let erCols := cols.filter (fun c => keys.contains c.1)
   let cols := cols.filter (fun c => !keys.contains c.1)
   match csvColumn cols kNItems with
@@ -304,17 +316,30 @@ def prSetup (keys : List Str) (cols : Cols) : Option PRReader :=
   match csvSelectScope cols (some sBinsLB) (fun _ => false) with
   | none => none
   | some (bbSel, cols) =>
-  let bb := sortPairs (bbSel.map (fun p => (rescope p.1, p.2)))
+    some ⟨erCols, iN, iD, iW, iH, sortPairs (bbSel.map (fun p => (rescope p.1, p.2))), cols⟩
+
+/-- the objective-bound columns: `csv_select_scope(.., columns, None, skip_orig_key=not endswith(bounds))`,
+sorted; their number must be positive and even -/
+def setupBounds (cols : Cols) : Option (List (Str × Nat) × Cols) :=
   match csvSelectScope cols none (fun s => !isBoundKey s) with
   | none => none
   | some (obSel, cols) =>
-  let ob := sortPairs obSel
-  if ob.length % 2 ≠ 0 then none else
+    let ob := sortPairs obSel
+    if ob.length % 2 ≠ 0 then none else some (ob, cols)
+
+/-- `packing_result.CsvReader.__init__(columns)`; `keys` = the titles the embedded reader removes -/
+def prSetup (keys : List Str) (cols : Cols) : Option PRReader :=
+  match setupCommon keys cols with
+  | none => none
+  | some c =>
+  match setupBounds c.rest with
+  | none => none
+  | some (ob, cols) =>
   match csvColumns cols (namesOfBounds ob) with
   | none => none
   | some (objs, _) =>
     if objs.isEmpty || 2 * objs.length ≠ ob.length then none else
-    some ⟨erCols, iN, iD, iW, iH, bb, ob, objs⟩
+    some ⟨c.erCols, c.iN, c.iD, c.iW, c.iH, c.bb, ob, objs⟩
 
 section reader
 variable {ER : Type} (C : Codec ER) (V : ErView ER)
@@ -356,6 +381,9 @@ structure SsCodec (SS : Type) where
   titles : Str → List SS → List Str
   row : Str → List SS → SS → List Str
   read : Str → (Str → Option Str) → Option SS
+  /-- the sample size of the statistics as the end-statistics writer prints it in its `n` column
+  (`n_not_needed=True`: the statistics writer itself prints no `n`; the reader takes it from there) -/
+  nCell : SS → Str
 
 /-- what the constructor looks at in the embedded objects: the optimised objective, the library's test
 `end_statistics.best_f == statistics` (`SampleStatistics.__eq__`, opaque), minimum and maximum -/
@@ -471,37 +499,20 @@ def psSelectObjs (idxN : Nat) (cols : Cols) : List Str → Option (List (Str × 
 
 /-- `packing_statistics.CsvReader.__init__(columns)` -/
 def psSetup (keys : List Str) (cols : Cols) : Option PSReader :=
-  let esCols := cols.filter (fun c => keys.contains c.1)
-  let cols := cols.filter (fun c => !keys.contains c.1)
-  match esCols.lookup kN with
+  match setupCommon keys cols with
+  | none => none
+  | some c =>
+  match c.erCols.lookup kN with
   | none => none
   | some idxN =>
-  match csvColumn cols kNItems with
+  match setupBounds c.rest with
   | none => none
-  | some (iN, cols) =>
-  match csvColumn cols kNDiff with
-  | none => none
-  | some (iD, cols) =>
-  match csvColumn cols kBinWidth with
-  | none => none
-  | some (iW, cols) =>
-  match csvColumn cols kBinHeight with
-  | none => none
-  | some (iH, cols) =>
-  match csvSelectScope cols (some sBinsLB) (fun _ => false) with
-  | none => none
-  | some (bbSel, cols) =>
-  let bb := sortPairs (bbSel.map (fun p => (rescope p.1, p.2)))
-  match csvSelectScope cols none (fun s => !isBoundKey s) with
-  | none => none
-  | some (obSel, cols) =>
-  let ob := sortPairs obSel
-  if ob.length % 2 ≠ 0 then none else
+  | some (ob, cols) =>
   match psSelectObjs idxN cols (namesOfBounds ob) with
   | none => none
   | some objs =>
     if objs.isEmpty || 2 * objs.length ≠ ob.length then none else
-    some ⟨esCols, iN, iD, iW, iH, bb, ob, objs⟩
+    some ⟨c.erCols, c.iN, c.iD, c.iW, c.iH, c.bb, ob, objs⟩
 
 section statreader
 variable {ES SS : Type} (C : Codec ES) (S : SsCodec SS) (V : EsView ES SS)
@@ -545,5 +556,48 @@ structure PRDomain {ER : Type} (C : Codec ER) (V : ErView ER) (rs : List (PRec E
   bbSome : ∃ r ∈ rs, r.binBounds ≠ []
   codec : C.RoundTrips (rs.map (·.er))
   keysDisj : ∀ k ∈ C.keys, k ∉ fixedTitles ++ bbKeys rs ++ (objKeys rs).flatMap objTitles
+
+/-- the assumption on the embedded `SampleStatistics` codec for the column group of objective `o` holding
+the statistics `col`: at least one title, all titles in the scope of `o` (`o` itself or `o.<x>`) with distinct
+use-keys, none of them `n`, none ending in `lowerBound`/`upperBound`; rows as long as the titles; and the reader
+returns the statistics from any use-key ↦ cell function that shows the writer's cells, the matching `n` and
+nothing else -/
+structure SsCodec.RoundTrips {SS : Type} (S : SsCodec SS) (o : Str) (col : List SS) : Prop where
+  ne : S.titles o col ≠ []
+  scope : ∀ t ∈ S.titles o col, (scopeUse o t).isSome
+  useNodup : ((S.titles o col).filterMap (scopeUse o)).Nodup
+  noN : kN ∉ (S.titles o col).filterMap (scopeUse o)
+  noBound : ∀ t ∈ S.titles o col, isBoundKey t = false
+  len : ∀ s ∈ col, (S.row o col s).length = (S.titles o col).length
+  back : ∀ s ∈ col, ∀ f : Str → Option Str,
+    (∀ p ∈ (S.titles o col).zip (S.row o col s), ∃ u, scopeUse o p.1 = some u ∧ f u = some p.2) →
+    f kN = some (S.nCell s) →
+    (∀ u, u ≠ kN → u ∉ (S.titles o col).filterMap (scopeUse o) → f u = none) → S.read o f = some s
+
+/-- the column of objective `o` when every record has it -/
+def psCol {ES SS : Type} (rs : List (PSRec ES SS)) (o : Str) : List SS :=
+  rs.filterMap (fun r => r.objectives.lookup o)
+
+/-- The record sets the statistics round trip speaks about: as `PRDomain`, and in addition all records carry
+the same objectives and the same bin-bound keys (the statistics writer raises otherwise / the reader does
+not accept blank cells), the end statistics have an `n` column, and the sample size of every objective's
+statistics is the `n` of the end statistics of its record (true for `from_packing_results`). -/
+structure PSDomain {ES SS : Type} (C : Codec ES) (S : SsCodec SS) (V : EsView ES SS)
+    (rs : List (PSRec ES SS)) : Prop where
+  ok : ∀ r ∈ rs, r.Ok V
+  canon : ∀ r ∈ rs, SortedKeys r.objectives ∧ SortedKeys r.objBounds ∧ SortedKeys r.binBounds
+  bounds : ∀ r ∈ rs, ∀ p ∈ r.objBounds, ∃ q ∈ r.objectives,
+    p.1 = scopeKey q.1 sLower ∨ p.1 = scopeKey q.1 sUpper
+  objName : ∀ o ∈ psObjKeys rs, ObjName o
+  bbKey : ∀ k ∈ psBbKeys rs, BBKey k
+  bbSome : psBbKeys rs ≠ []
+  commonObj : ∀ r ∈ rs, r.objectives.map (·.1) = psObjKeys rs
+  commonBB : ∀ r ∈ rs, r.binBounds.map (·.1) = psBbKeys rs
+  codec : C.RoundTrips (rs.map (·.es))
+  ss : ∀ o ∈ psObjKeys rs, S.RoundTrips o (psCol rs o)
+  nCell : ∀ r ∈ rs, ∀ p ∈ r.objectives,
+    ((C.titles (rs.map (·.es))).zip (C.row (rs.map (·.es)) r.es)).lookup kN = some (S.nCell p.2)
+  keysDisj : ∀ k ∈ C.keys, k ∉ fixedTitles ++ psBbKeys rs ++
+    (psObjKeys rs).flatMap (fun o => [scopeKey o sLower] ++ S.titles o (psCol rs o) ++ [scopeKey o sUpper])
 
 end Csv
